@@ -266,3 +266,61 @@ Example C14_report_all_nonvacuous :
     = [VMalformed [97]%N 0%nat true; VCollision 10 SelAny [97]%N [97]%N].
 Proof. vm_compute. repeat split; reflexivity. Qed.
 Print Assumptions C14_report_all_nonvacuous.
+
+(* ---------------- a consumer of the classification: the AAA policy of a pair ----------------
+   The pair is authenticated with the policy of the range it is classified to (group policy when the range has none):
+   every answer of [l2gw_policy] comes from a claim covering the pair, and carries that claim's range's policy. *)
+Theorem C14_l2gw_policy_sound :
+  forall a s c n p, l2gw_policy a s c = Some (n, p) ->
+  exists cl, In cl (claims (strip a)) /\ covers cl s c /\ c_name cl = n /\ p = policy_of a n (c_idx cl).
+Proof. exact l2gw_policy_sound. Qed.
+Print Assumptions C14_l2gw_policy_sound.
+
+(* "a range naming the exact C-VLAN wins over a wildcard range" holds for the range's attributes, not only for the
+   group name: the policy is the one of an exact claimant *)
+Theorem C14_l2gw_exact_range_policy :
+  forall a s c cl, In cl (claims (strip a)) -> c_svlan cl = s -> c_sel cl = SelExact c ->
+  exists cl', In cl' (claims (strip a)) /\ c_svlan cl' = s /\ c_sel cl' = SelExact c /\
+              l2gw_policy a s c = Some (c_name cl', policy_of a (c_name cl') (c_idx cl')).
+Proof. exact l2gw_exact_range_policy. Qed.
+Print Assumptions C14_l2gw_exact_range_policy.
+
+(* Group.GetPolicyName(svlan) — rescanning the matched group by S-VLAN only — gives the matched range's policy
+   provided no earlier range of that group contains the S-VLAN *)
+Theorem C14_rescan_agrees :
+  forall a s c n i g,
+  NoDup (map (fun g : agroup => fst (fst g)) a) ->
+  lookup (build (strip a)) s c = Some (n, i) -> find_group a n = Some g ->
+  (forall j r, (j < i)%nat -> nth_error (snd g) j = Some r -> matches_svlan r s = false) ->
+  rescan_policy g s = policy_of a n i.
+Proof. exact rescan_agrees. Qed.
+Print Assumptions C14_rescan_agrees.
+
+(* ... and not otherwise: a VALID configuration (accepted by ValidateMatchIndex) where /repo HEAD's l2gw trigger
+   (variant "defective", [l2gw_policy_rescan]) authenticates pair (100, 20) with the policy of the wildcard range
+   although the pair is classified to the exact range (finding l2gw-trigger:aaa-policy-by-svlan-rescan).
+   group "w", policy "G":  100/any policy "W",  100/20 policy "X" *)
+Definition pol_cfg : aconfig :=
+  [ (([119], [71]), [ (([49;48;48], [97;110;121]), [87]); (([49;48;48], [50;48]), [88]) ]) ]%N.
+Theorem C14_l2gw_rescan_refuted :
+  exists a s c, validate_strict (strip a) = VOk /\
+                lookup (build (strip a)) s c = Some ([119]%N, 1%nat) /\
+                l2gw_policy a s c = Some ([119], [88])%N /\
+                l2gw_policy_rescan a s c = Some ([119], [87])%N.
+Proof. exists pol_cfg, 100%N, 20%N. vm_compute. repeat split; reflexivity. Qed.
+Print Assumptions C14_l2gw_rescan_refuted.
+
+Example C14_l2gw_nonvacuous :
+  l2gw_policy pol_cfg 100 7 = Some ([119], [87])%N /\          (* wildcard range's policy *)
+  l2gw_policy pol_cfg 100 0 = Some ([119], [87])%N /\
+  l2gw_policy pol_cfg 101 20 = None /\
+  l2gw_policy [ (([119], [71]), [ (([49;48;48], []), []) ]) ]%N 100 5 = Some ([119], [71])%N /\   (* group policy *)
+  NoDup (map (fun g : agroup => fst (fst g)) pol_cfg) /\
+  find_group pol_cfg [119]%N = Some (hd (([], []), []) pol_cfg) /\
+  (forall j r, (j < 0)%nat -> nth_error (snd (hd (([], []), []) pol_cfg)) j = Some r -> matches_svlan r 100 = false).
+Proof.
+  repeat split; try (vm_compute; reflexivity).
+  - repeat constructor; simpl; tauto.
+  - intros j r Hj; inversion Hj.
+Qed.
+Print Assumptions C14_l2gw_nonvacuous.
